@@ -345,6 +345,9 @@ Section Machine.
         c1 <- swing_right s corner ;; vcit_loop f s c1 start false src iv
     end.
 
+  (** fuel of one VertexCornersIterator walk: NC+1 loop-head tests for the left traversal and NC+1 for the right one *)
+  Definition vcit_fuel : nat := (loop_fuel + loop_fuel)%nat.
+
   (** the compaction `for (invalid_vert : invalid_vertices)` (lines 943-975); [k] = num_vertices *)
   Fixpoint compact (ivs : list Z) (k : nat) (s : st) : res (nat * st) :=
     match ivs with
@@ -354,7 +357,7 @@ Section Machine.
       let src := Z.of_nat k - 1 in
       if src <? iv then compact r k s else
       start <- lmc s src ;;
-      s <- vcit_loop (S loop_fuel) s start start true src iv ;;
+      s <- vcit_loop vcit_fuel s start start true src iv ;;
       l <- lmc s src ;;
       s <- set_lmc s iv l ;;
       s <- make_isolated s src ;;
@@ -399,8 +402,93 @@ Definition eb_full (nev nf nsplit : Z) (rm : bool) (syms : list Z) (events : lis
   if Z.of_nat (length events) >? nf then Reject else                 (* num_topology_splits > num_faces *)
   eb_core (3 * nf) mv nf rm syms events bits.
 
+(** MeshEdgebreakerDecoderImpl::AssignPointsToCorners, the path `attribute_data_.empty()` (lines 1175-1189): point ids are the
+    vertex ids of the corner table, face f = (Vertex(3f), Vertex(3f+1), Vertex(3f+2)) via mesh->SetFace, and
+    set_num_points(num_connectivity_verts).  Result: (num_points, the face index list, three entries per face). *)
+Definition assign_points_fast (NC : Z) (r : Z * st) : Z * list Z :=
+  (fst r, (fix tab (start : Z) (n : nat) : list Z :=
+             match n with O => [] | S m => c2v (snd r) start :: tab (start + 1) m end) 0 (Z.to_nat NC)).
+
+(** DecodeConnectivity() for a stream without attribute connectivity data (num_attribute_data = 0): header guards, state
+    machine, AssignPointsToCorners. *)
+Definition eb_decode_mesh (nev nf nsplit : Z) (syms : list Z) (events : list (Z * Z * Z)) (bits : nat -> bool)
+  : res (Z * list Z) :=
+  r <- eb_full nev nf nsplit true syms events bits ;; Ok (assign_points_fast (3 * nf) r).
+
 (** helpers for the driver / examples *)
 Definition bits_of_list (l : list bool) : nat -> bool := fun k => nth k l false.
 Fixpoint tabulate {A} (f : Z -> A) (start : Z) (n : nat) : list A :=
   match n with O => [] | S m => f start :: tabulate f (start + 1) m end.
 Definition faces_of (NC : Z) (s : st) : list Z := tabulate (c2v s) 0 (Z.to_nat NC).
+
+(** MeshEdgebreakerDecoderImpl::AssignPointsToCorners, the deduplication path (attribute_data_ not empty, lines 1191-1286).
+    The attribute corner tables are INPUTS: one pair per attribute, (IsCornerOnSeam : corner -> bool, Vertex : corner -> Z),
+    arbitrary functions (whatever the seam bits made MeshAttributeCornerTable compute).  corner_to_point_map is a vector of
+    NC zeros, point_to_corner_map.size() is [np].  Result: (num_points, the face index list). *)
+Section AssignSeam.
+  Variable NC : Z.
+  Variable maxv : Z.
+  Definition att := ((Z -> bool) * (Z -> Z))%type.
+
+  (** `while (act_c != c) { if (act_c == kInvalid) return false; if (Vertex_i(act_c) != vert_id) {first = act_c; break;} act_c = SwingRight(act_c); }` *)
+  Fixpoint seam_walk (fuel : nat) (s : st) (av : Z -> Z) (vert_id c act : Z) : res (option Z) :=
+    match fuel with
+    | O => Fuel
+    | S f =>
+      if act =? c then Ok None else
+      if act =? -1 then Reject else
+      if negb (av act =? vert_id) then Ok (Some act) else
+      a' <- swing_right NC s act ;; seam_walk f s av vert_id c a'
+    end.
+
+  (** the `for (i < attribute_data_.size())` search of deduplication_first_corner for an interior vertex *)
+  Fixpoint find_first (atts : list att) (s : st) (c : Z) : res Z :=
+    match atts with
+    | [] => Ok c
+    | (seam, av) :: r =>
+      if negb (seam c) then find_first r s c else
+      a0 <- swing_right NC s c ;;
+      o <- seam_walk (loop_fuel NC) s av (av c) c a0 ;;
+      match o with Some a => Ok a | None => find_first r s c end
+    end.
+
+  Definition att_seam (atts : list att) (c prev : Z) : bool :=
+    existsb (fun sa : att => negb (snd sa c =? snd sa prev)) atts.
+
+  Definition cpm_write (st : (Z -> Z) * Z) (c v : Z) : res ((Z -> Z) * Z) :=
+    if in_rng c NC then Ok (upd (fst st) c v, snd st) else OOB.
+  Definition cpm_read (st : (Z -> Z) * Z) (c : Z) : res Z := if in_rng c NC then Ok (fst st c) else OOB.
+
+  (** the clockwise deduplication pass `while (c != kInvalid && c != deduplication_first_corner)` *)
+  Fixpoint dedup_walk (fuel : nat) (s : st) (atts : list att) (st : (Z -> Z) * Z) (first prev c : Z) : res ((Z -> Z) * Z) :=
+    match fuel with
+    | O => Fuel
+    | S f =>
+      if (c =? -1) || (c =? first) then Ok st else
+      st1 <- (if att_seam atts c prev
+              then st' <- cpm_write st c (snd st) ;; Ok (fst st', snd st' + 1)
+              else v <- cpm_read st prev ;; cpm_write st c v) ;;
+      c' <- swing_right NC s c ;;
+      dedup_walk f s atts st1 first c c'
+    end.
+
+  (** `for (int v = 0; v < corner_table_->num_vertices(); ++v)` *)
+  Fixpoint vert_loop (n : nat) (v : Z) (s : st) (atts : list att) (st : (Z -> Z) * Z) : res ((Z -> Z) * Z) :=
+    match n with
+    | O => Ok st
+    | S m =>
+      c <- lmc s v ;;
+      if c =? -1 then vert_loop m (v + 1) s atts st else
+      h <- get_hole maxv s v ;;
+      first <- (if h then Ok c else find_first atts s c) ;;
+      st0 <- cpm_write st first (snd st) ;;
+      let st1 := (fst st0, snd st0 + 1) in
+      c1 <- swing_right NC s first ;;
+      st2 <- dedup_walk (loop_fuel NC) s atts st1 first first c1 ;;
+      vert_loop m (v + 1) s atts st2
+    end.
+
+  Definition assign_points_seam (s : st) (atts : list att) : res (Z * list Z) :=
+    st <- vert_loop (Z.to_nat (nv s)) 0 s atts (fun _ => 0, 0) ;;
+    Ok (snd st, tabulate (fst st) 0 (Z.to_nat NC)).
+End AssignSeam.
